@@ -30,6 +30,37 @@ fn main() {
     if args[1] == "replay" {
         std::process::exit(props::replay(&args[2]));
     }
+    if args[1] == "tool" && args.get(2).map(|s| s.as_str()) == Some("pattern-keys") {
+        // one-off search (results are hard-coded in common.rs and re-validated by the reference at every start-up)
+        use blsful::*;
+        use rayon::prelude::*;
+        let n: u32 = args.get(3).and_then(|s| s.parse().ok()).unwrap_or(2_000_000);
+        let hits: Vec<String> = (0..n)
+            .into_par_iter()
+            .flat_map_iter(|i| {
+                let seed = format!("verif pattern key #{}", i);
+                let k1 = SecretKey::<Bls12381G2Impl>::from_hash(seed.as_bytes());
+                let k2 = SecretKey::<Bls12381G1Impl>::from_hash(seed.as_bytes());
+                let e48 = Vec::<u8>::from(&k1.public_key());
+                let e96 = Vec::<u8>::from(&k2.public_key());
+                let mut out = vec![];
+                let hi = |b: &[u8]| (((b[0] & 0x1f) as u16) << 8) | b[1] as u16;
+                for (name, v) in [("g1.x", hi(&e48)), ("g2.x1", hi(&e96)), ("g2.x0", ((e96[48] as u16) << 8) | e96[49] as u16)] {
+                    if v == 0x1a01 {
+                        out.push(format!("{} top {} {}", name, i, hex::encode(k1.to_be_bytes())));
+                    }
+                    if v == 0 {
+                        out.push(format!("{} zero {} {}", name, i, hex::encode(k1.to_be_bytes())));
+                    }
+                }
+                out
+            })
+            .collect();
+        for h in hits {
+            println!("{}", h);
+        }
+        std::process::exit(0);
+    }
     if args[1] == "child" {
         std::process::exit(props::child(&args[2..]));
     }
